@@ -242,7 +242,8 @@ def cases(draw):
                                  st.just([ref[3], ref[4]]), st.sampled_from([[0, 0], [23, 59]])))
         if draw(st.integers(0, 3)) == 0:
             c["tz"] = draw(st.sampled_from(["America/New_York", "Europe/Paris", "Asia/Kolkata", "UTC", "+05:30", "-0800",
-                                            "Pacific/Kiritimati", "UTC-12:00", "Asia/Tokyo"]))
+                                            "Pacific/Kiritimati", "UTC-12:00", "Asia/Tokyo", "Etc/GMT+5", "Etc/GMT-3", "Etc/GMT+11",
+                                            "Etc/GMT-10"]))
             if draw(st.booleans()) and c["tz"] in ("America/New_York", "Europe/Paris"):
                 # around a DST transition of that zone: clock times in the skipped or repeated hour
                 import pytz
